@@ -12,6 +12,7 @@ const (
 	SBool Sort = iota
 	SBV
 	SStr
+	SInt // mathematical integers: only string lengths and offsets (never Go integers)
 )
 
 // Term is an SMT term with eager constant folding. Go scalars (bool, all
@@ -88,6 +89,8 @@ func (t *Term) String() string {
 		s = fmt.Sprintf("(_ bv%d %d)", t.U, t.W)
 	case t.Const && t.Sort == SStr:
 		s = smtString(t.S)
+	case t.Const && t.Sort == SInt:
+		s = intLit(int64(t.U))
 	case t.Op == "var":
 		s = "|" + t.Name + "|"
 	default:
@@ -167,6 +170,8 @@ func Eq(a, b *Term) *Term {
 			return TBool(a.U == b.U)
 		case SStr:
 			return TBool(a.S == b.S)
+		case SInt:
+			return TBool(a.U == b.U)
 		}
 	}
 	if a == b {
@@ -219,6 +224,12 @@ func BVBin(op string, a, b *Term) *Term {
 				return TBV(w, 0)
 			}
 			return TBV(w, x>>y)
+		case "bvashr":
+			sh := y
+			if sh >= uint64(w) {
+				sh = uint64(w) - 1
+			}
+			return TBV(w, uint64(a.signed()>>sh))
 		case "bvudiv":
 			if y != 0 {
 				return TBV(w, x/y)
@@ -249,7 +260,7 @@ func intSide(t *Term) (*Term, bool) {
 		return t.Args[0], true
 	}
 	if t.Const && t.signed() >= -(1<<40) && t.signed() < (1<<40) {
-		return &Term{Sort: SBV, Op: "raw", txt: intLit(t.signed())}, true
+		return TInt(t.signed()), true
 	}
 	return nil, false
 }
@@ -328,7 +339,131 @@ func StrLen(a *Term) *Term { // returns BV64
 	if a.Const {
 		return TBV(64, uint64(len(a.S)))
 	}
-	return app(SBV, 64, "(_ int2bv 64)", app(SBV, 0, "str.len", a))
+	return BVOfInt(StrLenInt(a))
+}
+
+// TInt is an Int constant (kept in U as a signed value).
+func TInt(v int64) *Term { return &Term{Sort: SInt, Const: true, U: uint64(v)} }
+
+func StrLenInt(a *Term) *Term {
+	if a.Const {
+		return TInt(int64(len(a.S)))
+	}
+	return app(SInt, 0, "str.len", a)
+}
+
+// BVOfInt converts a (non-negative, small) Int term to a 64-bit vector.
+func BVOfInt(a *Term) *Term {
+	if a.Const {
+		return TBV(64, a.U)
+	}
+	return app(SBV, 64, "(_ int2bv 64)", a)
+}
+
+// IntOf converts a 64-bit vector holding a length/offset to Int.
+func IntOf(a *Term) *Term {
+	if a.Sort == SInt {
+		return a
+	}
+	if a.Const {
+		return TInt(a.signed())
+	}
+	if isI2B(a) {
+		return a.Args[0]
+	}
+	return app(SInt, 0, "bv2nat", a)
+}
+
+func IntBin(op string, a, b *Term) *Term {
+	if a.Const && b.Const {
+		x, y := int64(a.U), int64(b.U)
+		switch op {
+		case "+":
+			return TInt(x + y)
+		case "-":
+			return TInt(x - y)
+		}
+	}
+	return app(SInt, 0, op, a, b)
+}
+
+func IntCmp(op string, a, b *Term) *Term {
+	if a.Const && b.Const {
+		x, y := int64(a.U), int64(b.U)
+		switch op {
+		case "<":
+			return TBool(x < y)
+		case "<=":
+			return TBool(x <= y)
+		case ">":
+			return TBool(x > y)
+		case ">=":
+			return TBool(x >= y)
+		case "=":
+			return TBool(x == y)
+		}
+	}
+	return app(SBool, 0, op, a, b)
+}
+
+func StrSubstr(s, off, n *Term) *Term {
+	if s.Const && off.Const && n.Const {
+		o, l := int64(off.U), int64(n.U)
+		if o < 0 || o >= int64(len(s.S)) || l <= 0 {
+			return TStr("")
+		}
+		if o+l > int64(len(s.S)) {
+			l = int64(len(s.S)) - o
+		}
+		return TStr(s.S[o : o+l])
+	}
+	return app(SStr, 0, "str.substr", s, off, n)
+}
+
+func StrIndexOf(s, sub, from *Term) *Term {
+	if s.Const && sub.Const && from.Const {
+		f := int64(from.U)
+		if f < 0 || f > int64(len(s.S)) {
+			return TInt(-1)
+		}
+		k := strings.Index(s.S[f:], sub.S)
+		if k < 0 {
+			return TInt(-1)
+		}
+		return TInt(int64(k) + f)
+	}
+	return app(SInt, 0, "str.indexof", s, sub, from)
+}
+
+func StrReplaceAll(s, old, new *Term) *Term {
+	if s.Const && old.Const && new.Const {
+		return TStr(strings.ReplaceAll(s.S, old.S, new.S))
+	}
+	return app(SStr, 0, "str.replace_all", s, old, new)
+}
+
+func StrReplaceFirst(s, old, new *Term) *Term {
+	if s.Const && old.Const && new.Const {
+		return TStr(strings.Replace(s.S, old.S, new.S, 1))
+	}
+	return app(SStr, 0, "str.replace", s, old, new)
+}
+
+func StrFromInt(a *Term) *Term {
+	if a.Const {
+		return TStr(fmt.Sprint(int64(a.U)))
+	}
+	return app(SStr, 0, "str.from_int", a)
+}
+
+func StrAt(s, k *Term) *Term {
+	if s.Const && k.Const {
+		if int64(k.U) < 0 || int64(k.U) >= int64(len(s.S)) {
+			return TStr("")
+		}
+		return TStr(s.S[k.U : k.U+1])
+	}
+	return app(SStr, 0, "str.at", s, k)
 }
 func StrPrefixOf(p, s *Term) *Term {
 	if p.Const && s.Const {
